@@ -116,6 +116,13 @@ class OpInterp(DictInterp):
             ks = t.args[1].elts if isinstance(t.args[1], ast.Tuple) else [t.args[1]]
             names = {dotted(k) for k in ks}
             return self.kind_of(v) in names or (self.kind_of(v) == "bool" and "int" in names)
+        if isinstance(t, ast.Call) and call_name(t) == "isscalar" and len(t.args) == 1:
+            # numpy.isscalar: true for every Python / numpy scalar -- numbers, but also str, bytes and complex
+            return self.kind_of(self.ev(t.args[0], env)) in ("int", "float", "bool", "str", "complex", "bytes")
+        if isinstance(t, ast.Call) and call_name(t) == "isinstance" and len(t.args) == 2 and dotted(t.args[1]) in ("numbers.Number", "Number"):
+            return self.kind_of(self.ev(t.args[0], env)) in ("int", "float", "bool", "complex")
+        if isinstance(t, ast.Call) and call_name(t) == "isinstance" and len(t.args) == 2 and dotted(t.args[1]) in ("numbers.Real", "Real"):
+            return self.kind_of(self.ev(t.args[0], env)) in ("int", "float", "bool")
         if isinstance(t, ast.Compare) and len(t.ops) == 1 and isinstance(t.ops[0], (ast.Eq, ast.NotEq, ast.Is, ast.IsNot)):
             a, b = self.ev(t.left, env), self.ev(t.comparators[0], env)
             if isinstance(a, AScalar) and isinstance(b, (AScalar, Rat)):
@@ -164,9 +171,15 @@ class OpInterp(DictInterp):
     def binop(self, op, a, b):
         if isinstance(a, AScalar) or isinstance(b, AScalar):
             if isinstance(a, (AScalar, Rat)) and isinstance(b, (AScalar, Rat)):
+                kinds = [x.kind for x in (a, b) if isinstance(x, AScalar)]
+                if "str" in kinds or "bytes" in kinds:
+                    # python: number (+ - * /) str raises TypeError, except int * str (repetition), which is not a number either
+                    raise Raised("TypeError", "unsupported operand type(s) for %s: %s and %s" % (type(op).__name__, self.kind_of(a), self.kind_of(b)))
                 ra = a.rat if isinstance(a, AScalar) else a
                 rb = b.rat if isinstance(b, AScalar) else b
                 r = DictInterp.binop(self, op, ra, rb)
+                if "complex" in kinds:
+                    return AScalar(r, "complex")          # complex is contagious: a coefficient built from it is not a real number
                 if isinstance(a, AScalar) and isinstance(b, AScalar):
                     kind = "float" if isinstance(op, ast.Div) or "float" in (a.kind, b.kind) else "int"
                     return AScalar(r, kind)
